@@ -79,7 +79,7 @@ def t_c12_palettes():
     for tier in ("quick", "thorough"):
         for seed in range(0, 8):
             fr = c12.frames(tier, seed)
-            assert len(fr) == (8 if tier == "quick" else 12)
+            assert len(fr) == (9 if tier == "quick" else 14)
             Ts = [se3.T_from_taa(t) for _, t in fr]
             for a in Ts:
                 for b in Ts:
